@@ -1,5 +1,3 @@
-OPEN "pre.txt" FOR RANDOM AS #1 LEN = 4
-FIELD #1, 4 AS F1$
-LSET F1$ = "wxyz"
+OPEN "a.txt" FOR OUTPUT AS #1
+PRINT #1, "p" + CHR$(200) + "q"
 PUT #1, 1
-PRINT "end"
